@@ -214,6 +214,122 @@ def named_empty_neutron(run: Run, tbl, formula, syms):
             run.violation("Hill form not in C, H, then alphabetical / isotope / charge order", inp, got=str(kf))
 
 
+def huge_and_extended_counts(run: Run, tbl, formula, syms):
+    """Judged on the real code only (the model's counts are doubles):
+      * whole-number counts far beyond the range of a float (309..420 digits), written in a formula STRING or reached
+        with n*f / nested group multipliers: the formula has a Hill form, with exactly the same atom counts (Python
+        integers), in Hill order; a string written in Hill order equals its own Hill form; every order / grouping of
+        the same atoms has that Hill form; taking it twice changes nothing;
+      * counts that are extended-precision numpy scalars (numpy.longdouble holding a value that is not a double, where
+        the platform has one): the Hill form has exactly the formula's counts, a structure given in Hill order equals
+        its own Hill form, both insertion orders give one Hill form."""
+    rng = run.rng
+    pool = [k for k in gens.atom_pools()["element"] if k[0] not in (1, 6)]
+    for i in range(40 if run.tier == "quick" else 600):
+        digits = rng.choice([309, 310, 320, 400, rng.randint(309, 420)])
+        big = rng.choice([10 ** digits, 2 ** 1024, 2 ** 1024 + 2, 2 * int("".join(str(rng.randint(1, 9)) for _ in range(digits)))])
+        others = rng.sample(pool, rng.randint(1, 3))
+        ks = sorted([(6, 0, 0), (1, 0, 0)] + others, key=lambda k: oracle_key(k, syms))
+        where = rng.randrange(len(ks))
+        flat = [(big if j == where else rng.choice([1, 2, 4, 6]), k) for j, k in enumerate(ks)]
+        want = {k: c for c, k in flat}
+        text = render_flat(flat, tbl)
+        how = rng.choice(["string", "string", "reversed string", "halved group", "n*f", "nested multipliers"])
+        inp = dict(string=text[:12] + "...(%d characters)" % len(text), atoms=[k for _, k in flat], big_count_of=ks[where],
+                   count_digits=len(str(big)), count_head=str(big)[:10], count_tail=str(big)[-10:], built_as=how)
+        run.count(key="huge" + repr((text, how)), nontrivial=True, sample=repr(inp), tag="huge-integer-count")
+        try:
+            p = formula(text)
+            if how == "string":
+                f = p
+            elif how == "reversed string":
+                f = formula(render_flat(flat[::-1], tbl))
+            elif how == "halved group":
+                f = formula("(%s)2" % render_flat([(c // 2, k) for c, k in flat if c % 2 == 0], tbl)
+                            + render_flat([(c, k) for c, k in flat if c % 2], tbl))
+            elif how == "n*f":
+                f = formula(render_flat([(c, k) for c, k in flat if c != big], tbl)) \
+                    + big * formula(pyside.atom_of(ks[where], tbl))
+            else:
+                a, b = 10 ** 200, big // 10 ** 200
+                f = formula([(c, pyside.atom_of(k, tbl)) for c, k in flat if c != big]) \
+                    + formula([(a, [(b, pyside.atom_of(ks[where], tbl))]), (big - a * b, pyside.atom_of(ks[where], tbl))])
+            fatoms = {pyside.key_of(x): c for x, c in f.atoms.items()}
+        except Exception as e:  # noqa
+            run.violation("a formula with a %d-digit whole-number count cannot be built (%s): %s: %s"
+                          % (len(str(big)), how, type(e).__name__, str(e)[:80]), inp)
+            continue
+        if fatoms != want:
+            continue        # C01 / C02 judge how the formula is read; here: its Hill form
+        try:
+            h, ph = f.hill, p.hill
+            hs = pyside.struct_keys(h.structure)
+            hatoms = {pyside.key_of(x): c for x, c in h.atoms.items()}
+            verdicts = [("Hill form does not have exactly the formula's atom counts (a %d-digit whole number)" % len(str(big)),
+                         hatoms == want and h.atoms == f.atoms),
+                        ("Hill form not in C, H, then alphabetical order", [k for _, k in hs] == ks),
+                        ("a formula written in Hill order and parsed differs from its own Hill form", p == ph and ph == p),
+                        ("two formulas with equal atom counts have different Hill forms", h == ph and ph == h),
+                        ("taking the Hill form twice changes it", h.hill == h)]
+        except Exception as e:  # noqa
+            run.violation("a formula with a %d-digit whole-number count has no Hill form: %s: %s"
+                          % (len(str(big)), type(e).__name__, str(e)[:80]), inp)
+            continue
+        for what, ok in verdicts:
+            if not ok:
+                run.violation(what, inp)
+                break
+    # ---- extended-precision counts
+    import numpy as np
+    if not np.finfo(np.longdouble).eps < np.finfo(np.float64).eps:
+        run.notes.append("numpy.longdouble is a double on this platform: extended-precision counts not generated")
+        return
+    for i in range(60 if run.tier == "quick" else 1000):
+        c = rng.choice([np.longdouble(rng.randint(1, 50)) / np.longdouble(rng.choice([3, 7, 11, 13])),
+                        np.longdouble(2) ** rng.randint(60, 63) + 1,
+                        np.longdouble(1) + np.finfo(np.longdouble).eps * rng.randint(1, 9)])
+        if np.longdouble(float(c)) == c:
+            continue
+        others = rng.sample(pool, rng.randint(1, 3))
+        ks = sorted([(1, 0, 0)] + others + ([(6, 0, 0)] if rng.random() < 0.5 else []), key=lambda k: oracle_key(k, syms))
+        where = rng.randrange(len(ks))
+        counts = {k: (c if j == where else rng.choice([1, 2, 3, 0.5])) for j, k in enumerate(ks)}
+        how = rng.choice(["structure", "mapping", "n*f"])
+        inp = dict(atoms=ks, extended_precision_count_of=ks[where], count=repr(c), built_as=how)
+        run.count(key="longdouble" + repr(inp), nontrivial=True, sample=repr(inp), tag="longdouble-count")
+
+        def build(seq):
+            if how == "structure":
+                return formula([(counts[k], pyside.atom_of(k, tbl)) for k in seq])
+            if how == "mapping":
+                return formula({pyside.atom_of(k, tbl): counts[k] for k in seq})
+            g = formula()
+            for k in seq:
+                g = g + counts[k] * formula(pyside.atom_of(k, tbl))
+            return g
+        try:
+            f, r = build(ks), build(ks[::-1])
+            fa = {pyside.key_of(x): v for x, v in f.atoms.items()}
+            if fa != counts or type(fa[ks[where]]) is not type(c):
+                continue    # the formula itself does not carry the extended-precision count: nothing to say here
+            h, hr = f.hill, r.hill
+            ha = {pyside.key_of(x): v for x, v in h.atoms.items()}
+            verdicts = [("Hill form does not have exactly the formula's atom counts (an extended-precision count %r "
+                         "became %r)" % (c, ha.get(ks[where])), ha == fa and h.atoms == f.atoms),
+                        ("a formula given in Hill order differs from its own Hill form", f == h and h == f),
+                        ("two formulas with equal atom counts (opposite insertion orders) have different Hill forms",
+                         h == hr and hr == h),
+                        ("taking the Hill form twice changes it", h.hill == h)]
+        except Exception as e:  # noqa
+            run.violation("Hill form of a formula with an extended-precision count raised %s: %s"
+                          % (type(e).__name__, str(e)[:80]), inp)
+            continue
+        for what, ok in verdicts:
+            if not ok:
+                run.violation(what, inp)
+                break
+
+
 def run(run: Run) -> int:
     pt = import_repo()
     from periodictable.formulas import formula
@@ -388,6 +504,7 @@ def run(run: Run) -> int:
                 dict(string=text, table="private"))
     core.PRIVATE_TABLES.pop("c19-private", None)
     named_empty_neutron(run, tbl, formula, syms)
+    huge_and_extended_counts(run, tbl, formula, syms)
     return run.finish(RULE, assumptions=[
         "the symbol string order is abstracted to the number 256*c1+c2 (valid for one/two-letter ASCII symbols; "
         "the translator refuses other symbols)",
